@@ -3,6 +3,7 @@ package metadata
 import (
 	"bytes"
 	_ "embed"
+	"errors"
 	"fmt"
 	"io"
 
@@ -70,7 +71,8 @@ func (dtm *GraphsyncFilecoinV1) UnmarshalBinary(data []byte) error {
 }
 
 func (dtm *GraphsyncFilecoinV1) ReadFrom(r io.Reader) (n int64, err error) {
-	cr := &countingReader{r: r}
+	var consumed bytes.Buffer
+	cr := &countingReader{r: io.TeeReader(r, &consumed)}
 	v, err := varint.ReadUvarint(cr)
 	if err != nil {
 		return cr.readCount, err
@@ -91,5 +93,14 @@ func (dtm *GraphsyncFilecoinV1) ReadFrom(r io.Reader) (n int64, err error) {
 	dtm.VerifiedDeal = gm.VerifiedDeal
 	dtm.FastRetrieval = gm.FastRetrieval
 	dtm.PieceCID = gm.PieceCID
+	// Accept only the canonical encoding, so that what was read is what
+	// MarshalBinary writes.
+	canonical, err := dtm.MarshalBinary()
+	if err != nil {
+		return cr.readCount, err
+	}
+	if !bytes.Equal(canonical, consumed.Bytes()) {
+		return cr.readCount, errors.New("non-canonical encoding of graphsync filecoin v1 metadata")
+	}
 	return cr.readCount, nil
 }
